@@ -630,9 +630,75 @@ def enum_atheris(shard, nshards):
         shutil.rmtree(d, ignore_errors=True)
 
 
+# ---------------------------------------------------------------- scaling (no call may take for ever)
+
+SCALING = {
+    # name: (line template with %s, element, separator, malformed tails)
+    "P-segments": ("P\tp\t%s\t*", "a+", ",", ["a", "+", "a+,", ",", "a +"]),
+    "P-overlaps": ("P\tp\ta+,b+\t%s", "1M", ",", ["x", "1", "M", ","]),
+    "O-items": ("O\to\t%s", "a+", " ", ["a", "+", " ", "a+\x01"]),
+    "U-items": ("U\tu\t%s", "a", " ", ["\x01", " ", "a\x7f"]),
+    "L-cigar": ("L\ta\t+\tb\t-\t%s", "1M", "", ["x", "1", "M"]),
+    "E-trace": ("E\te\ta+\tb-\t0\t1\t0\t1\t%s", "1", ",", ["x", ",", "-"]),
+    "E-cigar": ("E\te\ta+\tb-\t0\t1\t0\t1\t%s", "1M", "", ["x", "1", "S"]),
+    "B-int": ("S\ts\t*\txx:B:i,%s", "1", ",", ["x", ",", "1.5", ""]),
+    "B-float": ("S\ts\t*\txx:B:f,%s", "1.5", ",", ["x", ",", "1e", "."]),
+    "H-bytes": ("S\ts\t*\txx:H:%s", "AF", "", ["G", "A", "a"]),
+    "f-digits": ("S\ts\t*\txx:f:%s", "1", "", ["e", ".", "e+", "x"]),
+    "i-digits": ("S\ts\t*\txx:i:%s", "1", "", ["x", "-", "+"]),
+    "sequence": ("S\ts\t%s", "AC", "", ["\x01", " ", "*"]),
+    "S2-sequence": ("S\ts\t10\t%s", "AC", "", ["\x01", " "]),
+    "name": ("S\t%s\t*", "ab", "", [" ", "\x01", "+,", "*"]),
+    "J-list": ("S\ts\t*\txx:J:[%s", "1", ",", ["x", ",", "]]", "["]),
+    "Z": ("S\ts\t*\txx:Z:%s", "ab ", "", ["\x01", "\x7f"]),
+    "tagname": ("S\ts\t*\t%s", "xx:i:1", "\t", ["xx:i:1", "x:i:1", "xx:i:", "xx"]),
+}
+SCALE_SMALL, SCALE_BIG = 11, 23
+
+
+def prop_scaling(case):
+    """The time a call takes grows moderately with the length of a field: the same malformed field with 23
+    instead of 11 well-formed elements in front of the flaw must not take thousands of times longer.  (CPU time of
+    this process; the relation is judged only when the longer call took more than half a second, so a
+    loaded machine does not matter.)"""
+    import time
+    tmpl, el, sep, _tails = SCALING[case["field"]]
+    tail = case["tail"]
+    took = {}
+    for n in (SCALE_SMALL, SCALE_BIG):
+        text = tmpl % (sep.join([el] * n) + (sep if tail and not tail.startswith(sep or "\0") else "") + tail)
+        t0 = time.process_time()
+        for _rep in range(3 if n == SCALE_SMALL else 1):
+            try:
+                l = gfapy.Line(text, vlevel=case["vlevel"], **({"version": case["version"]} if case.get("version") else {}))
+                str(l)
+                l.validate()
+            except GfapyError:
+                pass
+            except Exception as e:
+                raise Violation("leak", "%s on %r: %s" % (type(e).__name__, text[:80], str(e)[:200]), "scaling/" + type(e).__name__)
+        took[n] = (time.process_time() - t0) / (3 if n == SCALE_SMALL else 1)
+    if took[SCALE_BIG] > 0.5 and took[SCALE_BIG] > 200 * max(took[SCALE_SMALL], 1e-5):
+        raise Violation("does-not-terminate", "field %s, flaw %r: %d elements before the flaw take %.4f s, %d elements %.2f s - every further element multiplies the time (validation level %d)\n%r" % (
+            case["field"], tail, SCALE_SMALL, took[SCALE_SMALL], SCALE_BIG, took[SCALE_BIG], case["vlevel"], text), case["field"])
+    return {"nt": True, "field": case["field"]}
+
+
+def enum_scaling(shard, nshards):
+    i = 0
+    for f in sorted(SCALING):
+        for tail in SCALING[f][3]:
+            for vlevel in (1, 3, 0):
+                i += 1
+                if i % nshards == shard:
+                    yield {"field": f, "tail": tail, "vlevel": vlevel, "version": "gfa2" if f in ("O-items", "U-items", "E-trace", "E-cigar", "S2-sequence") else None}
+
+
 def parts(tier):
     q = tier == "quick"
-    return [Part("text", prop_text, strategy=st_text_case(), n=2500 if q else 15000, quick_shards=4),
+    return [Part("scaling", prop_scaling, enum=enum_scaling, exhaustive=True,
+                 note="18 kinds of list-like or repetitive fields x malformed tails x vlevel: 23 elements before the flaw must not take thousands of times longer than 11"),
+            Part("text", prop_text, strategy=st_text_case(), n=2500 if q else 15000, quick_shards=4),
             Part("mutants", prop_mutant, strategy=st_mutant_case(), n=1500 if q else 12000, quick_shards=4),
             Part("api", prop_api, strategy=st_api_case(), n=1200 if q else 8000, quick_shards=4),
             Part("cli", prop_cli, strategy=st_cli_case(), n=40 if q else 150, quick_shards=4,
